@@ -48,6 +48,10 @@ def build_value(v):
     if isinstance(v, dict):
         if "__stream__" in v:
             return io.BytesIO(build_value(v["__stream__"]))
+        if "__point_xy__" in v:
+            from buidl.pecc import S256Point
+            x, y = build_value(v["__point_xy__"])
+            return S256Point(x, y)
         if "__point__" in v:
             from buidl.pecc import G
             return build_value(v["__point__"]) * G
